@@ -130,6 +130,7 @@ type FuncGen struct {
 	copyOut     *[]func()
 	closureBindings map[string]sval
 	visitedOf   map[*ssa.Range]string
+	heapLocals  map[string][]*ssa.Alloc
 	retStates   int
 }
 
@@ -696,6 +697,8 @@ func (g *FuncGen) run() {
 		g.sc.declConst(name, g.sc.sortOf(fv.Type()))
 		g.vals[fv] = name
 		g.assumeValid(fv.Type(), name)
+		// a captured variable is the address of a live variable of the enclosing function: never nil
+		g.assume(fmt.Sprintf("(not (= %s 0))", name))
 	}
 	// implicit: pointer receiver is non-nil
 	if fn.Signature.Recv() != nil && len(fn.Params) > 0 {
@@ -844,6 +847,13 @@ func (g *FuncGen) setupCells() {
 	n := 0
 	for _, b := range g.fn.Blocks {
 		for _, in := range b.Instrs {
+			if a, ok := in.(*ssa.Alloc); ok && a.Heap && a.Comment != "" && a.Comment != "complit" && a.Comment != "new" && a.Comment != "makeslice" && a.Comment != "slicelit" && a.Comment != "varargs" {
+				// a named local that escapes (e.g. captured by a closure): lives on the heap
+				if g.heapLocals == nil {
+					g.heapLocals = map[string][]*ssa.Alloc{}
+				}
+				g.heapLocals[a.Comment] = append(g.heapLocals[a.Comment], a)
+			}
 			if a, ok := in.(*ssa.Alloc); ok && !a.Heap {
 				n++
 				et := deref(a.Type())
